@@ -41,7 +41,7 @@ class _Ctx:
 
 
 CTX = None
-STATS = {"branch_queries": 0, "branch_s": 0.0, "queries": 0, "solver_s": 0.0}
+STATS = {"branch_queries": 0, "branch_s": 0.0, "queries": 0, "solver_s": 0.0, "unknown": 0}
 
 
 def ctx():
@@ -272,19 +272,107 @@ def explore(fn, max_paths=4096, catch=(Exception,), timeout_ms=20000):
 
 
 # ---------------------------------------------------------------- deciding queries
-def check(*assertions, timeout_ms=60000, want_model=True):
-    """returns ('unsat', None) | ('sat', model) | ('unknown', reason)"""
-    s = z3.Solver()
-    s.set("timeout", timeout_ms)
-    for a in assertions:
-        s.add(a.e if isinstance(a, SBool) else a)
+_ARRAYS = {}     # id of a constant store-chain -> the STable it encodes
+
+
+def _mux(values, idx, iw, ow):
+    """the table as a multiplexer over the index bits (what the store-chain means, in a form that bit-blasts at once)"""
+    def rec(lo, n, bit):
+        vs = values[lo:lo + n]
+        if not vs:
+            return z3.BitVecVal(0, ow)
+        if all(v == vs[0] for v in vs) and len(vs) == n:
+            return z3.BitVecVal(vs[0], ow)
+        h = n // 2
+        return z3.If(z3.Extract(bit, bit, idx) == 1, rec(lo + h, h, bit - 1), rec(lo, h, bit - 1))
+    return rec(0, 1 << iw, iw - 1)
+
+
+def demux(e):
+    """rewrite every select from a constant table into a multiplexer: same meaning, no array theory.  z3 answers
+    `unknown` after minutes on two 256-entry store-chains that a mux decides in milliseconds."""
+    found = {}
+    seen = set()
+    todo = [e]
+    while todo:
+        t = todo.pop()
+        i = t.get_id()
+        if i in seen:
+            continue
+        seen.add(i)
+        if z3.is_select(t) and t.arg(0).get_id() in _ARRAYS:
+            T = _ARRAYS[t.arg(0).get_id()]
+            found[i] = (t, _mux(T.values, t.arg(1), T.iw, T.ow))
+            todo.append(t.arg(1))
+            continue
+        todo.extend(t.children())
+    if not found:
+        return e
+    out = z3.substitute(e, *found.values())
+    return demux(out) if _has_table_select(out) else out
+
+
+def _count_table_selects(e, limit):
+    seen = set()
+    todo = [e]
+    n = 0
+    while todo and n < limit:
+        t = todo.pop()
+        i = t.get_id()
+        if i in seen:
+            continue
+        seen.add(i)
+        if z3.is_select(t) and t.arg(0).get_id() in _ARRAYS:
+            n += 1
+        todo.extend(t.children())
+    return n
+
+
+def _has_table_select(e):
+    seen = set()
+    todo = [e]
+    while todo:
+        t = todo.pop()
+        i = t.get_id()
+        if i in seen:
+            continue
+        seen.add(i)
+        if z3.is_select(t) and t.arg(0).get_id() in _ARRAYS:
+            return True
+        todo.extend(t.children())
+    return False
+
+
+def check(*assertions, timeout_ms=60000, want_model=True, soft=False):
+    """returns ('unsat', None) | ('sat', model) | ('unknown', reason).  An `unknown` is counted in STATS: the runner does
+    not let an obligation report "discharged" while one of its queries went undecided, unless the caller passes soft=True
+    (meaning: this query is only an optimisation, the caller decides the matter some other way)."""
+    es = [a.e if isinstance(a, SBool) else a for a in assertions]
     t0 = time.time()
-    r = str(s.check())
-    STATS["queries"] += 1
+    # few table look-ups: decide the multiplexer form directly (array theory is what stalls); many: keep the compact
+    # array form and fall back to multiplexers only when that comes back unknown
+    few = _ARRAYS and sum(_count_table_selects(e, 17) for e in es) <= 16
+    forms = (True, False) if few else (False, True)
+    r = "unknown"
+    s = None
+    for mux in forms:
+        s = z3.Solver()
+        s.set("timeout", timeout_ms)
+        try:
+            for e in es:
+                s.add(demux(e) if mux else e)
+        except z3.Z3Exception:
+            continue
+        r = str(s.check())
+        STATS["queries"] += 1
+        if r != "unknown":
+            break
     STATS["solver_s"] += time.time() - t0
     if r == "sat":
         return r, (s.model() if want_model else None)
     if r == "unknown":
+        if not soft:
+            STATS["unknown"] += 1
         return r, s.reason_unknown()
     return r, None
 
@@ -576,6 +664,12 @@ class SInt:
 
     def __repr__(self):
         return "<SInt w=%d>" % self.w
+
+    def __str__(self):
+        c = self.concrete()
+        if c is not None:
+            return str(c)
+        raise Unsupported("str() of a symbolic machine integer (would silently become a placeholder)")
     __hash__ = None
 
 
@@ -671,6 +765,7 @@ class STable:
             for i, v in enumerate(self.values):
                 a = z3.Store(a, z3.BitVecVal(i, self.iw), z3.BitVecVal(v, self.ow))
             self.arr = a
+            _ARRAYS[a.get_id()] = self
         return self.arr
 
     def __len__(self):
@@ -907,7 +1002,20 @@ class ZInt:
         if not isinstance(o, (int, ZInt, SInt)):
             return True
         return SBool(s.e != ZInt.lift(o))
-    __hash__ = None
+
+    def __hash__(s):
+        """dictionary / set key: forks over the values 0..999 (all feasible ones get their own path); anything else is
+        outside the model"""
+        c = s.concrete()
+        if c is not None:
+            return hash(c)
+        if not _forced(z3.And(s.e >= 0, s.e < 1000)):
+            raise Unsupported("symbolic integer not provably in 0..999 used as a dictionary key")
+        for k in range(0, 1000):
+            if s == k:
+                s.e = z3.IntVal(k)        # on this path it *is* k: later == against dict keys is concrete
+                return hash(k)
+        raise Unsupported("no feasible value for a symbolic dictionary key")
 
     def __bool__(s):
         return bool(SBool(s.e != 0))
@@ -971,6 +1079,8 @@ class int_(metaclass=_IntMeta):
             return x
         if getattr(x, "_sstr_", False) and base in (None, 10):
             return _parse_int(x)
+        if getattr(x, "_sstr_", False) and base == 16:
+            return _parse_int(x, 16)
         return int(x) if base is None else int(x, base)
 
 
@@ -1005,8 +1115,8 @@ def _unicode_classes():
     return _UNI["digits"], _UNI["ws"]
 
 
-def _classify_int_char(ch):
-    """token of one character for int(): ('d', value term) | '_' | '+' | '-' | 'ws' | 'x'"""
+def _classify_int_char(ch, base=10):
+    """token of one character for int(): ('d', value term) | '_' | '+' | '-' | 'ws' | 'x' (| 'X': the letter of a 0x prefix)"""
     if isinstance(ch, str):
         if ch == "_":
             return "_"
@@ -1014,11 +1124,22 @@ def _classify_int_char(ch):
             return ch
         if ch.isspace():
             return "ws"
+        if base == 16 and ch in "abcdefABCDEF":
+            return ("d", z3.IntVal(int(ch, 16)))
+        if base == 16 and ch in "xX":
+            return "X"
         import unicodedata
         d = unicodedata.decimal(ch, None)
         return ("d", z3.IntVal(d)) if d is not None else "x"
     if bool(SBool(z3.And(z3.UGE(ch, 48), z3.ULE(ch, 57)))):
         return ("d", z3.BV2Int(ch, False) - 48)
+    if base == 16:
+        if bool(SBool(z3.And(z3.UGE(ch, 97), z3.ULE(ch, 102)))):
+            return ("d", z3.BV2Int(ch, False) - 87)
+        if bool(SBool(z3.And(z3.UGE(ch, 65), z3.ULE(ch, 70)))):
+            return ("d", z3.BV2Int(ch, False) - 55)
+        if bool(SBool(z3.Or(ch == 120, ch == 88))):
+            return "X"
     if bool(SBool(ch == 95)):
         return "_"
     if bool(SBool(ch == 43)):
@@ -1069,14 +1190,15 @@ def _rendered_value(chars):
     return v0
 
 
-def _parse_int(s):
-    """int(text, 10) for symbolic text, modelling CPython exactly: surrounding (Unicode) whitespace, one sign, ASCII and
-    Unicode decimal digits, single underscores between digits"""
-    v = _rendered_value(s.c) if len(s.c) else None
+def _parse_int(s, base=10):
+    """int(text, base) for base 10 and 16 and symbolic text, modelling CPython exactly: surrounding (Unicode) whitespace, one
+    sign, ASCII and Unicode decimal digits, single underscores between digits; base 16: letters a-f/A-F and an optional
+    0x/0X prefix (which may be followed by one underscore)"""
+    v = _rendered_value(s.c) if len(s.c) and base == 10 else None
     if v is not None:
         return v
-    toks = [_classify_int_char(ch) for ch in s.c]
-    err = ValueError("invalid literal for int() with base 10")
+    toks = [_classify_int_char(ch, base) for ch in s.c]
+    err = ValueError("invalid literal for int() with base %d" % base)
     i, j = 0, len(toks)
     while i < j and toks[i] == "ws":
         i += 1
@@ -1091,9 +1213,15 @@ def _parse_int(s):
         raise err
     val = z3.IntVal(0)
     prev = None
+    if base == 16 and len(toks) >= 2 and toks[1] == "X" and isinstance(toks[0], tuple) and bool(SBool(toks[0][1] == 0)):
+        toks = toks[2:]
+        if toks and toks[0] == "_":
+            toks = toks[1:]
+        if not toks:
+            raise err
     for t in toks:
         if isinstance(t, tuple):
-            val = val * 10 + t[1]
+            val = val * base + t[1]
             prev = "d"
         elif t == "_" and prev == "d":
             prev = "_"
